@@ -10,7 +10,7 @@ CHANSIM_STUB = {
 CHAN_ASSUME = [
     "bbolt transaction atomicity and durability are trusted; crash granularity is one kvdb transaction",
     "channels are born like lnwallet.CreateTestChannels builds them (no funding flow); commitment 0 carries a placeholder signature",
-    "no custom (aux) channels; HTLC count capped at 30 per run",
+    "no custom (aux) channels; HTLC count capped at 30 per run (483 in the C01 many-HTLC arm)",
     "a clean batch is evidence, not proof: schedules are sampled from a seeded PRNG",
 ]
 CHECKS = {
@@ -19,7 +19,7 @@ CHECKS = {
         quick=dict(runs=1600, wall=75), thorough=dict(runs=200000, wall=1200),
         rule="one evaluation = one seeded schedule of add/settle/fail/malformed/fee/sign/revoke/deliver events between two real LightningChannel state machines, checked after every event against the BOLT-2 reference model, conservation, byte-identical mirror commitments; non-trivial = both sides had unacknowledged work in flight at the same time at least once; distinct = distinct event-trace hash",
         states_measure="distinct (heightA mod 4, heightB mod 4, queue lengths, tip flags, unsigned counts, live HTLCs) tuples",
-        expected_probes=["probe_duplicate_htlc", "probe_fee_update", "probe_both_sides_busy", "probe_crossing_signatures"],
+        expected_probes=["probe_duplicate_htlc", "probe_fee_update", "probe_both_sides_busy", "probe_crossing_signatures", "probe_commitment_with_200+_htlc_outputs"],
         real_vs_stub=CHANSIM_STUB, assumptions=CHAN_ASSUME,
         determinism="call-driven engine: identical seed gives byte-identical event log (self-test: ./check selftest-determinism)",
     ),
@@ -43,7 +43,7 @@ CHECKS = {
         bin="run_chan", build="external", pkg="run_chan", level="exploration",
         quick=dict(runs=900, wall=75), thorough=dict(runs=60000, wall=900),
         rule="two arms. release-rule: chansim schedules with cuts, write failures and forked reloads; every RevokeAndAck leaving the API (first transmission or retransmission) is checked at that instant against the durable local commitment height and against an independent BOLT-3 derivation of the node's own chain. revocation-store: a producer streams secrets into the real shachain store with bit flips, foreign seeds, replays, skips and serialise/deserialise restarts; every lookup is compared with the independent derivation; in half of the store runs the stream starts at a height k0 = 2^b - c, j*2^b - c or an arbitrary 47-bit pattern, the store for k0 received secrets being assembled from the BOLT-3 definition in the store's own serialisation. non-trivial = (release arm) fault fired and HTLC locked in afterwards / (store arm) >= 8 inserts; distinct = distinct trace hash",
-        expected_probes=["probe_rev_retransmitted", "probe_store_rejects_bad", "fault_write_fail_revoke", "probe_store_started_at_large_height", "probe_store_started_above_2^32"],
+        expected_probes=["probe_rev_retransmitted", "probe_store_rejects_bad", "fault_write_fail_revoke", "fault_forged_revocation_negated-scalar", "fault_forged_revocation_bit-flip", "probe_store_started_at_large_height", "probe_store_started_above_2^32"],
         real_vs_stub=dict(CHANSIM_STUB, **{"shachain.RevocationStore / RevocationProducer": "real", "secret oracle": "independent 20-line BOLT-3 generate_from_seed/derive_secret"}),
         assumptions=CHAN_ASSUME + ["a run inserts at most 20000 secrets one at a time; larger k are reached by loading a store assembled from the BOLT-3 definition (its serialisation is part of what is judged) and streaming on from there"],
         determinism="call-driven engine: exact replay",
@@ -54,7 +54,7 @@ CHECKS = {
         quick=dict(runs=1600, wall=60), thorough=dict(runs=60000, wall=600),
         rule="one evaluation = one seeded session: handshake (honest / wrong static key / one bit of one act flipped) then a seeded sequence of writes of sizes {0,1,2,65534,65535,uniform} and, one in twelve, Conn.Write calls of 65536..135000 bytes (chunked into maximal records, resumed after a timeout like an io.Writer: Flush the record in flight, then Write the rest) in both directions; after a timed-out write an impatient caller may try WriteMessage instead of resuming (must be refused) over an in-memory pipe whose writer accepts a drawn prefix and then times out and whose reader fragments reads; long arm crosses 2-4 key rotations, short arm starts 5 messages before a rotation; attacker arm flips/truncates/deletes/inserts/swaps/replays/reflects/splices ciphertext. non-trivial = (benign) >= 5 messages delivered and, if pipe faults are enabled, at least one fired / (attack arms) the attack was applied; distinct = distinct trace hash",
         states_measure="distinct (sendNonce/100 per side, rotations per side) tuples",
-        expected_probes=["probe_key_rotation", "probe_two_rotations", "probe_started_near_rotation", "fault_partial_write", "fault_fragmented_read", "probe_chunked_conn_write", "probe_chunked_write_interrupted", "probe_write_refused_with_only_body_unflushed", "fault_attack_flip", "fault_attack_replay-old", "fault_attack_reflect", "fault_handshake_tamper"],
+        expected_probes=["probe_key_rotation", "probe_two_rotations", "probe_started_near_rotation", "fault_partial_write", "fault_fragmented_read", "probe_chunked_conn_write", "probe_conn_level_handshake", "fault_handshake_act_delivered_in_pieces", "kept_message_checks", "probe_chunked_write_interrupted", "probe_write_refused_with_only_body_unflushed", "fault_attack_flip", "fault_attack_replay-old", "fault_attack_reflect", "fault_handshake_tamper"],
         real_vs_stub={"brontide.Machine (handshake acts, WriteMessage, Flush, ReadMessage, key rotation)": "real",
                       "brontide.Conn Read/Write/Flush": "real, constructed directly over the simulated pipe",
                       "TCP / net.Conn": "simulated in-memory pipe with partial writes (timeout errors) and fragmented reads",
